@@ -7,8 +7,13 @@ use crate::uci::{engine_bin, Kind, Session};
 use serde_json::json;
 use std::time::{Duration, Instant};
 
-/// (c) self-play and UCI capacity runs on the debug-assertions build of the binary.
+/// (c) self-play and UCI capacity runs on the {b} build of the binary.
+fn build_name() -> &'static str {
+    if std::env::var("VH_ENGINE_OVERRIDE").map(|v| !v.is_empty()).unwrap_or(false) { "AddressSanitizer" } else { "debug-assertions" }
+}
+
 pub fn worker_bin(shard: usize, _nshards: usize, seed: u64, tier: &str, out: &mut Out) {
+    let b = build_name();
     let corpus = gen::corpus();
     let mut rng = Rng::new(seed, 0x15B0 + shard as u64);
     if shard < 6 {
@@ -42,7 +47,7 @@ pub fn worker_bin(shard: usize, _nshards: usize, seed: u64, tier: &str, out: &mu
                 match ended {
                     Some(st) if st.success() => out.add("autoplay_ended_cleanly", 1),
                     Some(st) => out.viol("C15", &format!("C15|autoplay|{ms}"),
-                        &format!("`rustybait auto {ms}` (debug-assertions build) ended with {st:?} after {boards} positions: {}", s.stderr_text().lines().filter(|l| !l.trim().is_empty()).take(4).collect::<Vec<_>>().join(" / ")), case.clone()),
+                        &format!("`rustybait auto {ms}` ({b} build) ended with {st:?} after {boards} positions: {}", s.stderr_text().lines().filter(|l| !l.trim().is_empty()).take(4).collect::<Vec<_>>().join(" / ")), case.clone()),
                     None => {
                         out.note(&format!("self-play still running after {limit:?} ({boards} positions)"));
                         out.inconclusive("self-play did not end within the watchdog");
@@ -101,7 +106,7 @@ pub fn worker_bin(shard: usize, _nshards: usize, seed: u64, tier: &str, out: &mu
             if !alive {
                 let st = s.wait_exit(Duration::from_secs(3));
                 out.viol("C15", &format!("C15|overlong|{l}|{with_illegal_tail}"),
-                    &format!("`position startpos moves <{l} plies{}>` + show + go depth 3 on the debug-assertions build: engine died or fell silent ({st:?}): {}",
+                    &format!("`position startpos moves <{l} plies{}>` + show + go depth 3 on the {b} build: engine died or fell silent ({st:?}): {}",
                         if with_illegal_tail { " + one illegal move" } else { "" },
                         s.stderr_text().lines().filter(|x| !x.trim().is_empty()).take(4).collect::<Vec<_>>().join(" / ")), case);
             } else {
@@ -189,7 +194,7 @@ pub fn worker_bin(shard: usize, _nshards: usize, seed: u64, tier: &str, out: &mu
         if let Some(x) = died {
             let st = s.wait_exit(Duration::from_secs(3));
             out.viol("C15", &format!("C15|hostile-move|{x}"),
-                &format!("`{prefix} {x}` on the debug-assertions build: engine died ({st:?}): {}", s.stderr_text().lines().filter(|l| !l.trim().is_empty()).take(4).collect::<Vec<_>>().join(" / ")),
+                &format!("`{prefix} {x}` on the {b} build: engine died ({st:?}): {}", s.stderr_text().lines().filter(|l| !l.trim().is_empty()).take(4).collect::<Vec<_>>().join(" / ")),
                 json!({"kind":"hostile-move-strings","prefix":prefix,"string":x}));
         } else {
             s.send("quit");
@@ -261,7 +266,7 @@ pub fn worker_bin(shard: usize, _nshards: usize, seed: u64, tier: &str, out: &mu
         if died || !best {
             let st = s.wait_exit(Duration::from_secs(3));
             out.viol("C15", &format!("C15|uci-capacity|{}", root.key()),
-                &format!("`{go}` after a {}-ply game on the debug-assertions build: engine died or fell silent ({st:?}): {}", root.moves.len(), s.stderr_text().lines().filter(|l| !l.trim().is_empty()).take(4).collect::<Vec<_>>().join(" / ")), case);
+                &format!("`{go}` after a {}-ply game on the {b} build: engine died or fell silent ({st:?}): {}", root.moves.len(), s.stderr_text().lines().filter(|l| !l.trim().is_empty()).take(4).collect::<Vec<_>>().join(" / ")), case);
         } else {
             s.send("quit");
             let _ = s.wait_exit(Duration::from_secs(5));
@@ -270,3 +275,42 @@ pub fn worker_bin(shard: usize, _nshards: usize, seed: u64, tier: &str, out: &mu
     }
 }
 
+
+/// Sanitizer pass (thorough tier): the same binary-level workloads plus generated multi-command
+/// sessions, all on an AddressSanitizer build of the engine (`VH_ENGINE_OVERRIDE`). A report
+/// ends the process with status 99 and its text on stderr.
+pub fn worker_asan(shard: usize, nshards: usize, seed: u64, tier: &str, out: &mut Out) {
+    match shard {
+        // over-long records, hostile move strings, capacity runs, one self-play
+        0..=3 => return worker_bin(6 + shard, nshards, seed, tier, out),
+        4 | 5 => return worker_bin(10 + shard, nshards, seed, tier, out),
+        6 => return worker_bin(2, nshards, seed, tier, out),
+        _ => {}
+    }
+    let corpus = gen::corpus();
+    let mut rng = Rng::new(seed, 0xA5A0 + shard as u64);
+    let n = if tier == "thorough" { 400 } else { 6 };
+    for i in 0..n {
+        let mut script = crate::m_uci::random_script(&corpus, &mut rng);
+        script.checked_build = false;
+        let name = format!("asan/{seed}/{shard}/{i}");
+        let case = json!({"kind":"asan-session","scenario":name,"script":script.json()});
+        out.begin(&case);
+        let res = crate::sess::run_script(&script, &format!("asan-{shard}-{i}"), Duration::from_secs(60));
+        out.add("asan_sessions", 1);
+        out.add("asan_commands", script.cmds.len() as u64);
+        out.add("asan_bestmoves", res.gos.iter().filter(|g| g.bestmove.is_some()).count() as u64);
+        let report: Vec<&String> = res.transcript.iter().filter(|l| l.contains("Sanitizer")).collect();
+        if !report.is_empty() || res.exit_code == Some(99) {
+            let frames: Vec<String> = res.transcript.iter().filter(|l| l.contains(" #") && (l.contains("rustybait") || l.contains("/src/"))).take(6).map(|l| l.split(" ! ").nth(1).unwrap_or(l).trim().to_string()).collect();
+            let what = report.first().map(|l| l.split(" ! ").nth(1).unwrap_or(l).trim().to_string()).unwrap_or_else(|| "exit status 99".into());
+            let kind = what.split("Sanitizer: ").nth(1).and_then(|r| r.split_whitespace().next()).unwrap_or("report").to_string();
+            out.viol("C15", &format!("C15|asan|{kind}|{}", frames.first().cloned().unwrap_or_default()),
+                &format!("[{name}] AddressSanitizer build of the engine: {what} :: {}", frames.join(" | ")),
+                json!({"kind":"asan-session","scenario":name,"script":script.json(),"transcript_tail":res.transcript.iter().rev().take(40).rev().collect::<Vec<_>>()}));
+        } else if res.exit_code == Some(0) {
+            out.add("asan_clean_exits", 1);
+        }
+        out.end();
+    }
+}
